@@ -74,7 +74,9 @@ let hspecs : (int * int * int * float * float list) list ref = ref []     (* idx
 let hids : int list ref = ref []
 let answers : ians list ref = ref []
 let tstate : pay tstate option ref = ref None
+let cf = ref false                                    (* variant of the System-level scheduled-event loop *)
 (* exact rational arithmetic: the extracted Qplus / Qminus *)
+let qplus a b = qred (C22m.qplus a b)
 let flow ((qa, qb):pay) (t:q) (t':q) : pay = (qa, qplus qb (qminus t' t))
 
 let list_next (ts:float list) (t:q) (incl:bool) : tinf =
@@ -112,7 +114,7 @@ let () =
          let cls = classify b a in
          let seen = transitionSeen b a mask in
          Printf.printf "ROW %d %d %d %d\n" (int_of_n cls) (int_of_n mask) (int_of_n seen) (int_of_n (toReport seen))
-     | ["SGN"; x] -> Printf.printf "SGN %d\n" (int_of_z (sgn fops (fl x)))
+     | ["SGN"; x] -> Printf.printf "SGN %d\n" (int_of_z (sgnT fops (fl x)))
      | ["ROOT"; tl; fl_; th; fh; bias; mw] ->
          Printf.printf "ROOT %h\n" (estimateRootTime fops (fl tl) (fl fl_) (fl th) (fl fh) (fl bias) (fl mw))
      | ["SYS"; acc; ts] -> accw := fl acc *. fl ts
@@ -163,6 +165,21 @@ let () =
          let n = int_of_string n in
          hspecs := !hspecs @ [(int_of_string idx, int_of_string cls, int_of_string action, fl interval, List.map fl (take n rest))]
      | "IDS" :: _ :: rest -> hids := List.map int_of_string rest
+     | ["CF"; b] -> cf := bl b
+     | "SYSNEXT" :: cfv :: t :: incl :: ndef :: rest ->
+         (* SYSNEXT cf t incl ndef (nt times..)* nsub times..  -> NEXT tn nids ids.. *)
+         let mk id times : unit shandler = { h_id = nat_of_int id; h_next = list_next times; h_act = (fun s _ -> ((s, false), false)) } in
+         let ndef = int_of_string ndef in
+         let rec defs i l acc = if i >= ndef then (List.rev acc, l) else match l with
+           | nt :: r -> let nt = int_of_string nt in defs (i+1) (drop nt r) (mk i (List.map fl (take nt r)) :: acc)
+           | [] -> (List.rev acc, []) in
+         let (dh, rest) = defs 0 rest [] in
+         let subsl = match rest with
+           | ns :: r -> List.mapi (fun j x -> { ss_handlers = [mk (ndef + j) [fl x]]; ss_reporters = [] }) (take (int_of_string ns) r)
+           | [] -> [] in
+         let all = { ss_handlers = dh; ss_reporters = [] } :: subsl in
+         let (tn, ids) = sys_next (bl cfv) (fun ss -> ss.ss_handlers) all (q_of_float (fl t)) (bl incl) in
+         Printf.printf "NEXT %h %d" (float_of_ti tn) (List.length ids); List.iter (fun i -> Printf.printf " %d" (int_of_nat i)) ids; Printf.printf "\n"
      | ["TSRESET"] -> hspecs := []; hids := []; answers := []; tstate := None
      | ["TSINIT"; t0] -> tstate := Some (ts_init (q_of_float (fl t0)) (q_of_float 0.0, q_of_float 0.0)); answers := []
      | "ANS" :: st :: t :: tadv :: _ :: ids ->
@@ -173,7 +190,7 @@ let () =
          (match !tstate with
           | None -> Printf.printf "NOSTATE\n"
           | Some s ->
-            (match ts_stepTo subs ths flow (bl ra) (q_of_float (fl time)) s !answers with
+            (match ts_stepTo !cf subs ths flow (bl ra) (q_of_float (fl time)) s !answers with
              | TSRet (st, s', rest, log, uses) ->
                  let used = List.length !answers - List.length rest in
                  answers := rest; tstate := Some s';
